@@ -279,6 +279,10 @@ def _eval_count_cmp(key, d, n):
     return {"==": a == b, "<": a < b}.get(key[1])
 
 
+def _same_atom(g, w):
+    return g == w
+
+
 def visitor_meaning(rep, ex: Explorer):
     """VISIT.meaning on parser/myVisitor.py."""
     prog = ex.prog
@@ -363,26 +367,6 @@ def visitor_meaning(rep, ex: Explorer):
             ok = f is not None and f[0] == "atom" and (f[1] == text or f[1] == ("name", text) or f[1] == ("name", (text,)) or repr(f[1]).count(repr(text)) == 1 and "name" in repr(f[1]) or f[1] == ("c", text))
             rep.check(ok, "VISIT.meaning", site, f"atom {text}", "any other identifier denotes the atom of that name", extracted=F.show(f) if f else repr(rv), required=f"Symbol({text!r})", function=site)
     rep.floor("visitVar evaluations", n, 9)
-    # visitCondition: argument binding and text
-    qual, paths = run("visitCondition")
-    site = fn_label(prog, qual)
-    n = 0
-    for p in paths:
-        if p.outcome[0] != "return":
-            continue
-        news0 = [ev for ev, Q in iter_events(p.events) if ev.kind == "new" and ev.cls.endswith("Conditional")]
-        n += 1
-        parts = cond_parts_state(p.state, news0[0].obj) if news0 else None
-        ok = parts is not None and F.canon(parts[0]) == F.canon(attr("antecedent")) and F.canon(parts[1]) == F.canon(attr("consequent"))
-        rep.check(ok, "VISIT.meaning", site, "conditional", "(B|A): the formula before the bar becomes the consequence, after it the antecedence",
-                  extracted=(f"antecedence={F.show(parts[0])}, consequence={F.show(parts[1])}" if parts else "no conditional built")[:300], required="Conditional(consequence=visit(consequent), antecedence=visit(antecedent))", function=site)
-        news = [ev for ev, Q in iter_events(p.events) if ev.kind == "new" and ev.cls.endswith("Conditional")]
-        for ev in news[:1]:
-            text = ev.args[2] if len(ev.args) > 2 else ev.kwargs.get("textRepresentation")
-            parts = getattr(text, "parts", ())
-            s = "".join(x if isinstance(x, str) else ("<C>" if "consequent" in repr(x) else "<A>" if "antecedent" in repr(x) else "<?>") for x in parts)
-            rep.check(s == "(<C>|<A>)", "VISIT.meaning", site, "text representation", "the text is (consequent|antecedent), which re-parses to the same conditional", extracted=s, required="(<C>|<A>)", function=site)
-    rep.floor("visitCondition paths", n, 1)
     # VISIT.order: the list rules put their own item in front of what the rest of the input yields
     # the declared atoms, by evaluation on concrete parse trees of `myid` (num=ID ',' myid | num=ID NEWLINE) for one to four
     # names and every spelling of the line end the lexer accepts: the visitor returns the names, in order, nothing else
@@ -428,6 +412,7 @@ def visitor_meaning(rep, ex: Explorer):
             I_ = Interp(prog, models={"antlr4.ParseTreeVisitor.visit": visit_tree}, summaries=summ)
             I_.max_depth = 12
             I_.unfold_recursion = True
+            I_.unroll_while = 8
             mpaths = I_.explore(qual_m, setup_m)
             if ex.report is not None:
                 ex.report.absorb_stats(I_)
@@ -439,51 +424,118 @@ def visitor_meaning(rep, ex: Explorer):
             n_sig += 1
             rep.check(got == names, "VISIT.order", site_m, slot, "the declared atoms are the identifiers of the signature line, in order, nothing else (whatever the line end is)", extracted=repr(got)[:120], required=repr(names), function=site_m)
     rep.floor("signature trees evaluated", n_sig, 12)
-    for m, rest, what in (("visitCondition", "condition", "conditional"),):
-        qual, paths = run(m)
-        site = fn_label(prog, qual)
-        k = 0
-        for p in paths:
-            if p.outcome[0] != "return":
-                continue
-            more = None
-            for key, val in p.decisions:
-                if key[0] == "isnone" and isinstance(key[1], tuple) and key[1][:1] == ("mcall",) and key[1][2] == rest:
-                    more = not val
-            vw = view(p.state, p.outcome[1])
-            segs = list(vw[1]) if isinstance(vw, tuple) and vw[0] == "list" else None
-            k += 1
-            if segs is None or more is None:
-                raise AnalysisError(f"{site}: result of the list rule is not a list decided by the presence of a rest")
-            own = len(segs) >= 1 and segs[0][0] == "one"
-            tail = segs[1:] == [("sym", ("rest", rest))] if more else segs[1:] == []
-            rep.check(own and tail, "VISIT.order", site, f"{'with' if more else 'without'} rest", f"the {what} read here comes first, followed by those of the rest of the input (file order, none lost)",
-                      extracted=f"{len(segs)} segment(s): {[sg[0] for sg in segs]}", required="[own] + rest" if more else "[own]", function=site)
-        rep.floor(f"{m} paths", k, 2)
-    # REJECT.signature: duplicate declarations and the reserved names Top / Bottom are rejected
-    qual, paths = run("visitSignature")
-    site = fn_label(prog, qual)
-    seen = {"duplicate": None, "Top": None, "Bottom": None}
-    for p in paths:
-        for key, val in p.decisions:
-            kind = None
-            if key[0] == "cmp" and "distinct" in repr(key):
-                # a comparison of the number of distinct atoms with the number of atoms, however it is written: which of
-                # "no duplicate" (d = n) and "duplicate" (d < n) is this path in?
-                tv = {sc: _eval_count_cmp(key, d, n_) for sc, (d, n_) in (("nodup", (2, 2)), ("dup", (1, 2)))}
-                if None in tv.values() or tv["nodup"] == tv["dup"]:
-                    raise AnalysisError(f"{site}: duplicate test in a form the analysis does not read: {show_pred(key)}")
-                kind, bad = "duplicate", (tv["dup"] == val)
-            elif key[0] == "in" and key[1] == ("c", "Top"):
-                kind, bad = "Top", (val is True)
-            elif key[0] == "in" and key[1] == ("c", "Bottom"):
-                kind, bad = "Bottom", (val is True)
-            if kind and bad:
-                seen[kind] = (seen[kind] or True) and p.outcome[0] == "raise" if seen[kind] is not False else False
-                if p.outcome[0] != "raise":
-                    seen[kind] = False
-    for kind, msg in (("duplicate", "an atom declared twice"), ("Top", "the reserved name Top as atom"), ("Bottom", "the reserved name Bottom as atom")):
-        rep.check(seen[kind] is True, "REJECT.signature", site, kind, f"a signature with {msg} is rejected", extracted="rejected" if seen[kind] else ("accepted" if seen[kind] is False else "not tested"), required="ValueError", function=site)
+    # visitCondition, by evaluation on concrete parse trees of `condition` ('(' f '|' f ')' ',' NEWLINE* condition | '(' f '|'
+    # f ')' NEWLINE*) for one to three conditionals: the result is the list of conditionals in file order, each with the
+    # formula before the bar as consequence, the one after it as antecedence, and the text "(consequent|antecedent)"
+    def var_node(I, name):
+        return I.alloc(HOpaque("ParseNode", {"rule": "formula", "visit": "visitVar", "text": Const(name), "labels": {"atom": tok(I, name)}, "kids": {"ID": [tok(I, name)]}, "nchildren": 1}))
+
+    def condition_tree(I, pairs):
+        node = None
+        for c, a in reversed(pairs):
+            cn, an = var_node(I, c), var_node(I, a)
+            own = f"({c}|{a})"
+            if node is None:
+                node = I.alloc(HOpaque("ParseNode", {"rule": "condition", "visit": "visitCondition", "text": Const(own), "labels": {"consequent": cn, "antecedent": an},
+                                                     "kids": {"formula": [cn, an]}, "many": {"formula": True, "NEWLINE": True}, "absent": ("condition", "NEWLINE"), "nchildren": 5}))
+            else:
+                node = I.alloc(HOpaque("ParseNode", {"rule": "condition", "visit": "visitCondition", "text": Const(own + "," + I.deref(node).attrs["text"].value), "labels": {"consequent": cn, "antecedent": an},
+                                                     "kids": {"formula": [cn, an], "condition": [node]}, "many": {"formula": True, "NEWLINE": True}, "absent": ("NEWLINE",), "nchildren": 7}))
+        return node
+
+    qual_c = f"{VIS}.visitCondition"
+    site_c = fn_label(prog, qual_c)
+    n_cond = 0
+    for pairs in ([("b", "p")], [("f", "b"), ("b", "p")], [("w", "x_1"), ("f", "b"), ("Y", "w")], [("a", "a"), ("a", "a")]):
+        held = {}
+
+        def visit_tree_c(I, args, kwargs, node, held=held):
+            x = args[0] if args else None
+            o = I.deref(x) if isinstance(x, Ref) else None
+            if isinstance(o, HOpaque) and o.typ == "ParseNode":
+                m_ = prog.lookup_method(VIS, o.attrs["visit"])
+                if m_ is None:
+                    raise AnalysisError(f"{VIS}.{o.attrs['visit']} not found")
+                return I.call_function(m_, [held["s"], x], {}, node)
+            raise AnalysisError(f"{site_c}: visit() of something that is not a node of the tree: {x!r}")
+
+        def setup_c(I, pairs=pairs, held=held):
+            s_ = I.alloc(HObj(VIS, {"sigcheck": I.alloc(HList()), "signature": Sym("sig"), "visit": ExtV("antlr4.ParseTreeVisitor.visit")}))
+            held["s"] = s_
+            return [s_, condition_tree(I, pairs)], {}
+
+        I_ = Interp(prog, models={"antlr4.ParseTreeVisitor.visit": visit_tree_c}, summaries=summ)
+        I_.max_depth = 12
+        I_.unfold_recursion = True
+        I_.unroll_while = 8
+        cpaths = I_.explore(qual_c, setup_c)
+        if ex.report is not None:
+            ex.report.absorb_stats(I_)
+        slot = "conditionals " + ",".join(f"({c}|{a})" for c, a in pairs)
+        if len(cpaths) != 1 or cpaths[0].outcome[0] != "return":
+            raise AnalysisError(f"{site_c}: evaluation on a concrete tree did not give one result ({slot}: {[p.outcome[0] for p in cpaths]})")
+        st = cpaths[0].state
+        rv = cpaths[0].outcome[1]
+        o = st.heap.get(rv.oid) if isinstance(rv, Ref) else None
+        items = [sg[1] for sg in o.segs] if isinstance(o, HList) and not o.is_set and all(sg[0] == "one" for sg in o.segs) else None
+        n_cond += 1
+        got = []
+        for it in items or []:
+            parts = cond_parts_state(st, it)
+            oc = st.heap.get(it.oid) if isinstance(it, Ref) else None
+            txt = oc.attrs.get("textRepresentation") if isinstance(oc, HObj) else None
+            weak = oc.attrs.get("weak") if isinstance(oc, HObj) else None
+            got.append((F.show(parts[1]) if parts else "?", F.show(parts[0]) if parts else "?", txt.value if isinstance(txt, Const) else repr(txt), weak.value if isinstance(weak, Const) else repr(weak)))
+        want = [(F.show(("atom", ("name", ("c", c)), "v")), F.show(("atom", ("name", ("c", a)), "v")), f"({c}|{a})", False) for c, a in pairs]
+        got_cmp = [(g[0], g[1]) for g in got]
+        want_cmp = [(w[0], w[1]) for w in want]
+        rep.check(items is not None and len(got) == len(want) and sorted(got_cmp) == sorted(want_cmp) and all(_same_atom(g, w) for g, w in zip(sorted(got_cmp), sorted(want_cmp))), "VISIT.meaning", site_c, f"conditional ({slot})",
+                  "(B|A): the formula before the bar becomes the consequence, after it the antecedence",
+                  extracted=("; ".join(f"consequence={g[0]}, antecedence={g[1]}" for g in got) if items is not None else repr(view(st, rv)))[:300], required="; ".join(f"consequence={w[0]}, antecedence={w[1]}" for w in want), function=site_c)
+        rep.check(items is not None and got_cmp == want_cmp, "VISIT.order", site_c, slot, "the conditional read here comes first, followed by those of the rest of the input (file order, none lost)",
+                  extracted=(f"{len(got)} conditional(s): " + ", ".join(f"({g[0]}|{g[1]})" for g in got) if items is not None else repr(view(st, rv)))[:300], required=", ".join(f"({w[0]}|{w[1]})" for w in want), function=site_c)
+        rep.check(items is not None and [g[2] for g in got] == [w[2] for w in want] if got_cmp == want_cmp else True, "VISIT.meaning", site_c, f"text representation ({slot})",
+                  "the text is (consequent|antecedent), which re-parses to the same conditional", extracted=repr([g[2] for g in got])[:200], required=repr([w[2] for w in want]), function=site_c)
+        rep.check(all(g[3] is False for g in got), "VISIT.meaning", site_c, f"strength ({slot})", "the conditionals of the file are strong ones", extracted=repr([g[3] for g in got]), required="weak=False", function=site_c)
+    rep.floor("condition trees evaluated", n_cond, 4)
+    # REJECT.signature, by evaluation on concrete atom lists (what `visit(ctx.myid())` hands back): a list with a repeated
+    # atom or with one of the reserved names Top / Bottom raises ValueError, any other list is returned as it is
+    qual_s = f"{VIS}.visitSignature"
+    site = fn_label(prog, qual_s)
+    n_sigs = 0
+    SIGS = [(["a"], None), (["a", "b"], None), (["b", "p", "f", "w"], None), (["top", "bottom", "TOP"], None),
+            (["a", "a"], "duplicate"), (["a", "b", "a"], "duplicate"), (["a", "b", "b", "c"], "duplicate"), (["c", "a", "b", "c"], "duplicate"),
+            (["Top"], "Top"), (["a", "Top"], "Top"), (["Top", "a", "b"], "Top"),
+            (["Bottom"], "Bottom"), (["a", "Bottom", "b"], "Bottom"), (["a", "b", "Bottom"], "Bottom")]
+    msgs = {"duplicate": "an atom declared twice", "Top": "the reserved name Top as atom", "Bottom": "the reserved name Bottom as atom"}
+    verdict = {k: None for k in msgs}
+    accepted_ok = None
+    for names, kind in SIGS:
+        def visit_sig(I, args, kwargs, node, names=names):
+            return I.new_list([Const(x) for x in names])
+
+        def setup_s(I):
+            s_ = I.alloc(HObj(VIS, {"sigcheck": I.alloc(HList()), "signature": Sym("sig"), "visit": ExtV("antlr4.ParseTreeVisitor.visit")}))
+            return [s_, CTX], {}
+
+        spaths = ex.run(qual_s, setup_s, summaries=summ, key="vis-sig-" + ",".join(names), models={"antlr4.ParseTreeVisitor.visit": visit_sig})
+        if len(spaths) != 1:
+            raise AnalysisError(f"{site}: {len(spaths)} paths for the concrete atom list {names!r} ({[k for p in spaths for k, v in p.decisions][:2]!r})")
+        p = spaths[0]
+        n_sigs += 1
+        if kind is None:
+            vw = view(p.state, p.outcome[1]) if p.outcome[0] == "return" else None
+            got = [sg[1].value if sg[0] == "one" and isinstance(sg[1], Const) else repr(sg) for sg in vw[1]] if isinstance(vw, tuple) and vw[0] == "list" else None
+            if got != names and accepted_ok is None:
+                accepted_ok = f"{names!r}: {p.outcome[0]} {got if got is not None else ''}"
+        else:
+            is_verr = p.outcome[0] == "raise" and "ValueError" in repr(p.outcome[1])
+            if not is_verr and verdict[kind] is None:
+                verdict[kind] = f"{names!r} is accepted" if p.outcome[0] == "return" else f"{names!r}: {p.outcome!r}"[:120]
+    for kind, msg in msgs.items():
+        rep.check(verdict[kind] is None, "REJECT.signature", site, kind, f"a signature with {msg} is rejected", extracted=verdict[kind] or "rejected (every sample list)", required="ValueError", function=site)
+    rep.check(accepted_ok is None, "VISIT.order", site, "accepted signature", "a signature of distinct, unreserved atoms is returned as declared", extracted=accepted_ok or "returned unchanged", required="the declared atoms", function=site)
+    rep.floor("signature lists evaluated", n_sigs, 14)
     # VISIT.keys (by evaluation): the base built for a `conditionals` block holds the conditionals the rest of the input
     # yields, keyed by position + 1 in that order, and nothing else
     qual, paths = run("visitConditionals")
